@@ -100,7 +100,13 @@ void harness (void)
     slot = in_gy * in_stride * VC_PPW + in_gx;
     VH_ASSUME (slot < VC_WORDS * VC_PPW);
     /* ghost unit in a guard zone */
+#if VC_GUARDW > 0
     VH_ASSUME (in_gz < VC_GUARDW * VC_U || (in_gz >= (VC_GUARDW + VC_WORDS) * VC_U && in_gz < (VC_WORDS + 2 * VC_GUARDW) * VC_U));
+#else
+    /* -DVC_GUARDW=0: the heap block IS the described buffer, so even a read or a same-value write one unit outside it
+     * is an access outside the pixel storage (pointer checks / ASan) */
+    VH_ASSUME (in_gz == 0);
+#endif
     memcpy (block, in_mem, 4 * (VC_WORDS + 2 * VC_GUARDW));
 
     r = fast_path_fill ((pixman_implementation_t *) 0, (uint32_t *) buf, (int) in_stride, VC_BPP,
@@ -112,7 +118,9 @@ void harness (void)
     VH_CHECK ("fill.supported_bpp_returns_true", r == TRUE);
     VH_CHECK ("fill.inside_rectangle_is_filler", !inside || got == VC_LOW (VC_BPP, in_filler));
     VH_CHECK ("fill.outside_rectangle_unchanged", inside || got == old);
+#if VC_GUARDW > 0
     VH_CHECK ("fill.guard_zone_unchanged", block[in_gz] == in_mem[in_gz]);
+#endif
     free (block);
     VH_END ();
 }
